@@ -283,12 +283,12 @@ func cellKeys(t types.Type) ([]string, []*Sort) {
 }
 
 func isRefCell(key string) bool {
-	return !(key == "C:bool" || key == "C:int" || key == "C:string" || key == "C:func" || strings.HasPrefix(key, "C:opq:") || strings.HasSuffix(key, "#l") || strings.HasSuffix(key, "#t"))
+	return !(key == "C:bool" || key == "M:has" || key == "C:bytes" || key == "C:int" || key == "C:string" || key == "C:func" || strings.HasPrefix(key, "C:opq:") || strings.HasSuffix(key, "#l") || strings.HasSuffix(key, "#t"))
 }
 
 func heapSort(key string) *Sort {
 	switch {
-	case key == "C:bool":
+	case key == "C:bool", key == "M:has":
 		return SArray(SRef, SBool)
 	case key == "C:string", key == "C:bytes":
 		return SArray(SRef, SStr)
